@@ -15,7 +15,7 @@ UNITS = {
   'inode': dict(FG, wrapper='w_inode.cpp'),                                         # input_node<int>
   'chain': dict(FG, wrapper='w_chain.cpp'),                                         # queue_node<int> -> function_node<int,int,rejecting>
 }
-FS = ['--max-field-sensitivity-array-size', '600', '--object-bits', '12', '--no-sat-preprocessor']
+FS = ['--max-field-sensitivity-array-size', '600', '--object-bits', '12', '--sat-solver', 'cadical']   # minisat2 (default) is heavy-tailed on these instances: 0.1 s .. > 15 min for 30k clauses
 COMMON = dict(fail_over_unwind=True, cbmc=['--unwind', '40'] + FS, native_cflags=['-fno-sanitize=null'], timeout=900, thorough_override={'timeout': 3600})
 
 # ---------------------------------------------------------------- function_node (h_fnode.c)
@@ -29,24 +29,28 @@ def fifo(sc): return dict(sc, FIFO=1) if sc['CONC'] == 1 else sc
 def seqs18(n, lo, hi):
     """operation lists of length n over {1 = try_put, 8 = run a solver-chosen task}, first op a put, lo..hi puts"""
     return [','.join(('1',) + q) for q in itertools.product('18', repeat=n - 1) if lo <= 1 + q.count('1') <= hi]
+def seqs123(n, lo, hi):
+    """the same with concrete picks (2 = oldest, 3 = newest): used where two symbolic picks among several live tasks get too expensive (concurrency 2)"""
+    return [','.join(('1',) + q) for q in itertools.product('123', repeat=n - 1) if lo <= 1 + q.count('1') <= hi]
 FQ_QUICK = [
   S(1, '1,1,8,1,8', FIFO=1), S(1, '1,1,1,8,8', FIFO=1, NESTB=1), S(2, '1,1,1,8,8,1'), S(0, '1,1,1,8,8,1'), S(2, '1,1,8,1,1,8'),
   S(1, '1,1,1,2,5,8', FIFO=1), S(2, '6,1,1,8,7,1'), C(1, '1,2,1,9,1,2', '0,1,2', NSUCC=2, FLIPS='1,2', FIFO=1), S(1, '1,1,8,1,8', EXTIN=1, FIFO=1),
 ]
-FQ_THOROUGH = FQ_QUICK + [fifo(S(c, o)) for c in (1, 2, 0) for o in seqs18(6, 3, 4)] + \
-  [fifo(S(c, o, NESTB=b, NESTS=s)) for c in (1, 2) for o in ('1,1,8,1,8', '1,8,1,8') for b, s in ((1, 0), (0, 1), (2, 2), (3, 1))] + \
-  [fifo(S(c, o, EXTIN=1)) for c in (1, 2) for o in ('1,1,1,8,8,8', '1,8,1,1,8')] + \
-  [fifo(S(c, o)) for c in (1, 2) for o in ('1,1,1,2,5,8,1', '1,1,5,1,2,3', '6,1,6,8,7,1,7,8', '6,1,1,3,7,2')] + \
+FQ_THOROUGH = FQ_QUICK + [fifo(S(c, o)) for c in (1, 0) for o in seqs18(6, 3, 4)] + [S(2, o) for o in seqs123(6, 3, 4)] + [S(2, o) for o in seqs18(6, 3, 4)] + \
+  [fifo(S(c, o, NESTB=b, NESTS=s)) for c, o in ((1, '1,1,8,1,8'), (1, '1,8,1,8'), (2, '1,1,2,1,3'), (2, '1,8,1,8')) for b, s in ((1, 0), (0, 1), (2, 2), (3, 1))] + \
+  [fifo(S(c, o, EXTIN=1)) for c, o in ((1, '1,1,1,8,8,8'), (1, '1,8,1,1,8'), (2, '1,1,1,2,3,2'), (2, '1,8,1,1,8'))] + \
+  [fifo(S(c, o)) for c in (1, 2) for o in ('1,1,1,2,5,3,1', '1,1,5,1,2,3', '6,1,6,2,7,1,7,3', '6,1,1,3,7,2')] + \
   [fifo(C(c, o, '0,1,2,5,6', NSUCC=2, FLIPS='1,2,3')) for c in (1, 2) for o in ('1,2,1,9,1,2', '1,1,2,9,2,1,2', '1,2,9,1,2,9,1,2')]
 FR_QUICK = [
   S(1, '1,1,8,1,1,8'), S(2, '1,1,1,8,1,8'), S(2, '1,1,8,1,1,8'), S(1, '4,8,8,8', AVAIL=2), S(1, '1,4,1,2,2,2', AVAIL=2), S(1, '1,4,1,3,2,2', AVAIL=2), S(2, '4,8,8,8,8', AVAIL=3), S(1, '1,4,5,8,8', AVAIL=2),
   S(1, '1,1,8', NESTB=1, NESTS=1),
 ]
-FR_THOROUGH = FR_QUICK + [S(c, o) for c in (1, 2) for o in seqs18(6, 3, 4)] + \
-  [S(c, o, NESTB=b, NESTS=s) for c in (1, 2) for o in ('1,1,8,1,8', '1,8,1,8') for b, s in ((1, 0), (0, 1), (2, 2), (3, 1))] + \
+FR_THOROUGH = FR_QUICK + [S(1, o) for o in seqs18(6, 3, 4)] + [S(2, o) for o in seqs123(6, 3, 4)] + [S(2, o) for o in seqs18(6, 3, 4)] + \
+  [S(c, o, NESTB=b, NESTS=s) for c, o in ((1, '1,1,8,1,8'), (1, '1,8,1,8'), (2, '1,1,2,1,3'), (2, '1,8,1,8')) for b, s in ((1, 0), (0, 1), (2, 2), (3, 1))] + \
   [S(c, o, AVAIL=a) for c, a in ((1, 2), (1, 3), (2, 3)) for o in ('4,2,2,2,2', '1,4,2,2,2,2', '1,4,3,2,2,2', '4,1,2,2,2', '4,2,1,2,2,2', '1,1,4,2,3,2,2', '4,2,2,5,2,2')]
 FL_QUICK = [S(1, '1,1,8,1', NESTB=1), S(2, '1,1,8,1', NESTB=3), S(0, '1,1', NESTB=1)]
-FL_THOROUGH = FL_QUICK + [fifo(S(c, o, NESTB=b)) for c in (1, 2, 0) for o in ('1,1,8,1,8', '1,8,1,1,8,8', '1,1,1,8,8') for b in (0, 1, 2, 5)]
+FL_THOROUGH = FL_QUICK + [fifo(S(c, o, NESTB=b)) for c in (1, 0) for o in ('1,1,8,1,8', '1,8,1,1,8,8', '1,1,1,8,8') for b in (0, 1, 2, 5)] + \
+  [S(2, o, NESTB=b) for o in ('1,1,2,1,3', '1,3,1,1,2,2', '1,1,1,8,8', '1,1,1,3,2') for b in (0, 1, 2, 5)]
 FNODE_ORACLE = ('conservation ledger per message (try_put true or pulled <=> body exactly once <=> output offered exactly once to every push-mode successor; '
   'rejected => never processed; payload intact), bodies running at once and live body tasks + inline bodies <= concurrency at every body start / task creation, '
   'truthful try_put (queueing: always true; rejecting: true iff a slot is free), graph wait count == live tasks (direct and through the worker\'s '
@@ -83,11 +87,11 @@ EBC_THOROUGH = EBC_QUICK + [E('1,' + w, '0,1,2,7', '3,1,2', MINFLIP=0) for w in 
   [E('1,' + w, '0,5,3', '7,5', nsucc=3, MINFLIP=0) for w in words(['1', '10', '12', '41'], 4)]
 IN_QUICK = [
   E('1,2,2,2', '3,1,0', '1', nsucc=1, NPROD=2, MINFLIP=0), E('1,2,10,2,10,10,2,2', '0,2', '1', nsucc=1, NPROD=2), E('1,2,20,30,2,20,31,2,20', '0', '1', nsucc=1, NPROD=2),
-  E('2,40,1,2,2,11,2', '1,2,0', '3', nsucc=1, NPROD=2, MINFLIP=0), E('1,2,2,10,11,2,2', '1,2,0,3', '3', nsucc=2, NPROD=3, MINFLIP=0),
+  E('2,40,1,2,2,10,2', '1,2,0', '3', nsucc=0, NPROD=2, MINFLIP=0), E('1,2,41,2,2,11,2', '0,2,1', '3', nsucc=1, NPROD=2, MINFLIP=0), E('1,2,2,10,11,2,2', '1,2,0,3', '3', nsucc=2, NPROD=3, MINFLIP=0),
   E('1,2,20,11,31,2,2', '0', '3', nsucc=2, NPROD=2),
 ]
 IN_THOROUGH = IN_QUICK + [E('1,2,' + w, '0,1,2', '1', nsucc=1, NPROD=3, MINFLIP=0) for w in words(['2', '10', '20', '31'], 4)] + [E('1,2,20,30,' + w, '0', '1', nsucc=1, NPROD=2, MINFLIP=0) for w in words(['2', '10', '20', '30', '31'], 2)] + \
-  [E(w + ',2,2', '1,0', '3', nsucc=1, NPROD=2, MINFLIP=0) for w in words(['1', '2', '40', '41', '10'], 4, lambda q: '1' in q and ('40' in q or '41' in q))]
+  [E(w + ',2,2', '1,0', '3', nsucc=0, NPROD=2, MINFLIP=0) for w in words(['1', '2', '40', '41', '10'], 4, lambda q: '1' in q and ('40' in q or '41' in q))]
 HARNESSES += [
   dict(COMMON, name='edge_queue_node', unit='eq', harness='h_edge.c', defines={'memset': 'vp_memset', 'EK': 1}, scenarios_quick=EQ_QUICK, scenarios_thorough=EQ_THOROUGH,
        desc='queue_node<int> (round_robin_cache, item buffer, forward_task_bypass, aggregator handler) with 1-3 harness successors following the receiver protocol: reject / accept, '
